@@ -57,6 +57,14 @@ func emissions(p bpath, b string) []emitEv {
 				case "writeln":
 					ev.Kind = "ln"
 					ev.Args = args
+					// a constant line written without formatting is the same emission as writelnf of that text
+					if len(args) == 1 {
+						if f, err := strconv.Unquote(args[0]); err == nil {
+							ev.Kind = "fmt"
+							ev.Format = strings.ReplaceAll(f, "%", "%%") + "\n"
+							ev.Args = nil
+						}
+					}
 				default:
 					ev.Kind = "fmt"
 					if len(args) > 0 {
